@@ -21,7 +21,7 @@ RULE = ("netlists: 1-3 modules from 21 shapes (soft/hard/fixed x {single rectang
         "YAML coordinates) placed in distinct slots of the die, max_ratio in {2,3}; configurations per model: input; each movable module translated to each free slot; "
         "soft modules grown 10%; each branch slid 0.2 along its side; and from each legal configuration every perturbation of the menu {cross each die border by 0.5, "
         "stretch a soft rectangle beyond the ratio limit, shrink a soft module's area by 36%, detach a branch by 0.25, slide a branch 0.5 past the trunk end, swap two "
-        "siblings, overlap two siblings by 0.3, overlap two modules by >=0.5, change a hard rectangle's width by 0.25, change a hard branch offset by 0.25, move a fixed "
+        "siblings, overlap two siblings by 0.3, overlap two modules by >=0.5, push a module 0.4 deep onto each single branch of another module, change a hard rectangle's width by 0.25, change a hard branch offset by 0.25, move a fixed "
         "module by 0.5}. Non-trivial = configurations other than the unmodified input; distinct by construction.")
 ASSUMPTIONS = ["annealing slack set to ~0 via model.time (0.3*0.9^1000); the step-cap ('radius'), time ('Exact Value') and switched-off-rectangle ('Rid') groups are bookkeeping of the "
                "annealing loop, not legality, and are excluded",
@@ -256,6 +256,25 @@ def perturbations(cfg, die):
             out.append((f'move-fixed M{mi}', c))
         for mj in range(len(cfg)):
             if mj != mi and m['kind'] != 'fixed':
+                # push module mi from outside onto each BRANCH of module mj (0.4 deep), so that only a rectangle pair
+                # (its trunk or one of its branches, that branch) overlaps - not the two trunks
+                for bj in range(1, len(cfg[mj]['rects'])):
+                    rb = cfg[mj]['rects'][bj]
+                    for ri in range(len(rs)):
+                        c = copy.deepcopy(cfg)
+                        ra = c[mi]['rects'][ri]
+                        if rb['role'] == 'N':
+                            dx, dy = rb['x'] - ra['x'], (rb['y'] + rb['h'] / 2 - 0.4) - (ra['y'] - ra['h'] / 2)
+                        elif rb['role'] == 'S':
+                            dx, dy = rb['x'] - ra['x'], (rb['y'] - rb['h'] / 2 + 0.4) - (ra['y'] + ra['h'] / 2)
+                        elif rb['role'] == 'E':
+                            dx, dy = (rb['x'] + rb['w'] / 2 - 0.4) - (ra['x'] - ra['w'] / 2), rb['y'] - ra['y']
+                        else:
+                            dx, dy = (rb['x'] - rb['w'] / 2 + 0.4) - (ra['x'] + ra['w'] / 2), rb['y'] - ra['y']
+                        for r in c[mi]['rects']:
+                            r['x'] += dx
+                            r['y'] += dy
+                        out.append((f'overlap M{mi}.{ri} onto branch M{mj}.{bj}', c))
                 c = copy.deepcopy(cfg)
                 ta, tb = c[mi]['rects'][0], cfg[mj]['rects'][0]
                 dx, dy = tb['x'] - ta['x'] + 0.3, tb['y'] - ta['y'] + 0.2
@@ -364,6 +383,9 @@ def evaluate_system(model, cfg, index):
 
 
 def check_case(case, res):
+    if case.get('elongated'):
+        check_elongated(case, res)
+        return
     reset_frame_state()
     attrs = dict(shapes=[s for s, _ in case['mods']], ratio=case['ratio'])
     try:
@@ -402,6 +424,44 @@ def check_case(case, res):
             res.case('legal' if legal else 'illegal:' + '+'.join(bad_clauses), nontrivial=(desc != 'input'))
 
 
+def check_elongated(case, res):
+    """two unit squares on a strongly elongated die, overlapping in a 0.2 x 0.2 corner: beyond the documented smoothing
+    tolerance (0.01 * short side / number of modules), so the system must reject it; abutting squares must be accepted"""
+    import tools.legalfloor.legalfloor as lf
+    from frame.netlist.netlist import Netlist
+    reset_frame_state()
+    W, H = case['die']
+    attrs = dict(shapes=['unit', 'unit'], ratio=2.0, elongated=True)
+    n = Netlist({'Modules': {'M0': {'area': 1, 'rectangles': [[5.0, 5.0, 1.0, 1.0]]}, 'M1': {'area': 1, 'rectangles': [[7.0, 5.0, 1.0, 1.0]]}},
+                 'Nets': [['M0', 'M1']]})
+    try:
+        with quiet():
+            ml, al, xl, yl, wl, hl, hyper, og = lf.netlist_to_utils(n)
+            model = lf.Model(ml, al, xl, yl, wl, hl, float(W), float(H), hyper, 2.0, og, 0.9, 0.3, 1.0, None)
+            model.time.assign(1000)
+    except Exception as e:  # noqa
+        res.violation('model-raises', case, attrs, 'a model', f'{type(e).__name__}: {e}')
+        return
+    base = [dict(kind='soft', area=1.0, rects=[dict(role='T', x=5.0, y=5.0, w=1.0, h=1.0)]),
+            dict(kind='soft', area=1.0, rects=[dict(role='T', x=7.0, y=5.0, w=1.0, h=1.0)])]
+    index = [[0], [0]]
+    for desc, (x1, y1) in (('apart', (7.0, 5.0)), ('abutting', (6.0, 5.0)), ('corner-touch', (6.0, 6.0)),
+                           ('corner-overlap-0.2', (5.8, 5.8)), ('side-overlap-0.3', (5.7, 5.0))):
+        cfg = copy.deepcopy(base)
+        cfg[1]['rects'][0]['x'], cfg[1]['rects'][0]['y'] = x1, y1
+        st = legality(cfg, base, case['die'], 2.0)
+        if AMB in st.values():
+            res.counters['ambiguous-configuration'] += 1
+            continue
+        legal = all(v == OK for v in st.values())
+        unmet = evaluate_system(model, cfg, index)
+        if (not unmet) != legal:
+            res.violation('accepts-illegal' if not unmet else 'rejects-legal', dict(case, only=desc),
+                          dict(attrs, config=desc, violated=sorted(k for k, v in st.items() if v == BAD), groups=sorted({g for g, _ in unmet})),
+                          f'legal={legal}', f'unmet equations: {unmet[:4]}')
+        res.case('legal' if legal else 'illegal:no-overlap', nontrivial=True)
+
+
 def netlists(tier):
     out = []
     all_shapes = list(SHAPES)
@@ -426,10 +486,15 @@ def shards(tier):
     step = 3
     for lo in range(0, len(nl), step):
         out.append(dict(lo=lo, hi=min(len(nl), lo + step)))
+    out.append(dict(elongated=True))
     return out
 
 
 def run_shard(shard, tier, res):
+    if shard.get('elongated'):
+        for die in ([100, 10], [10, 100], [40, 12]):
+            check_case(dict(elongated=True, die=die), res)
+        return
     nl = netlists(tier)[shard['lo']:shard['hi']]
     for mods in nl:
         needs_wide = any(s.endswith('_int') for s, _ in mods)
@@ -447,6 +512,7 @@ def replay(case):
     from mc.engine import ShardResult
     res = ShardResult()
     case = dict(case)
-    case['mods'] = [tuple(m) for m in case['mods']]
+    if not case.get('elongated'):
+        case['mods'] = [tuple(m) for m in case['mods']]
     check_case(case, res)
     return res.violations
